@@ -191,7 +191,8 @@ type encArgs struct {
 	Input  []byte `json:"input"` // a valid stream; its reference tokens are replayed
 	Mode   uint64 `json:"mode"`  // bit i set: write the value starting at token i with WriteValue
 	Sparse int    `json:"sparse,omitempty"`
-	Fault  int    `json:"fault,omitempty"` // > 0: every Fault-th Write of the underlying writer is short and fails
+	Fault  int    `json:"fault,omitempty"`  // > 0: every Fault-th Write of the underlying writer is short and fails
+	Buffer bool   `json:"buffer,omitempty"` // the destination is a *bytes.Buffer
 }
 
 // limitedWriter is an opaque writer; with faultEvery > 0 every faultEvery-th Write accepts only
@@ -223,6 +224,11 @@ func runEncoderPositions(w *run.W, a *encArgs) {
 	}
 	out := limitedWriter{faultEvery: a.Fault}
 	e := jsontext.NewEncoder(&out)
+	if a.Buffer && a.Fault == 0 {
+		// the *bytes.Buffer route: the Encoder writes into the Buffer's own spare capacity and re-bases on every flush
+		e = jsontext.NewEncoder(&out.buf)
+		w.Count("encoder_replays_into_bytes_buffer", 1)
+	}
 	sig := map[string]string{"coder": "encoder"}
 	if a.Fault > 0 {
 		sig["writer"] = "faulty"
@@ -881,6 +887,7 @@ func generate(w *run.W) {
 			w.Do("decoder-positions", &posArgs{Input: in, Script: scripts[r.IntN(len(scripts))], Chunk: []int{0, 1, 2, 7, 64}[r.IntN(5)], Inv: inv, Dup: r.IntN(4) == 0, Sparse: []int{0, 0, 4, 1000}[r.IntN(4)]})
 			if _, ok := ref.StreamValid(in, ref.Opts{}); ok {
 				w.Do("encoder-positions", &encArgs{Input: in, Mode: r.Uint64() & r.Uint64(), Sparse: []int{0, 0, 5, 1000}[r.IntN(4)]})
+				w.Do("encoder-positions", &encArgs{Input: in, Mode: r.Uint64() & r.Uint64(), Sparse: []int{3, 7, 13}[r.IntN(3)], Buffer: true})
 				w.Do("encoder-positions", &encArgs{Input: in, Mode: r.Uint64() & r.Uint64(), Sparse: []int{0, 5}[r.IntN(2)], Fault: 1 + r.IntN(4)})
 			}
 			// invalid: mutate 1-3 times
